@@ -38,11 +38,8 @@ Inductive ts_ev : Type :=
 | EvFrame (video : bool) (dts pts : N) (key boundary : bool) (rawlen : N).
 
 (* ---- remuxer state --------------------------------------------------------- *)
-Record ts_st := mk_ts {
-  ts_done : bool;                 (* filter.done *)
-  ts_data : list mmsg;            (* filter.data *)
-  ts_acodec : option N;           (* filter.audioCodecId (-1 = None) *)
-  ts_vcodec : option N;
+(* Rtmp2MpegtsRemuxer without its probe filter *)
+Record rmx_st := mk_rmx {
   ts_spspps : option bytes;       (* nil / non-nil (possibly empty) *)
   ts_asc : bool;                  (* ascCtx != nil *)
   ts_acache : N;                  (* len(audioCacheFrames) *)
@@ -51,20 +48,30 @@ Record ts_st := mk_ts {
   ts_abase : option N;            (* timestampFilter.basicAudioDts (MaxUint64 = None) *)
   ts_vbase : option N
 }.
-Definition ts_init : ts_st := mk_ts false [] None None None false 0 0 false None None.
+Definition rmx_init : rmx_st := mk_rmx None false 0 0 false None None.
 
-Definition ts_set_spspps (s : ts_st) (v : option bytes) : ts_st :=
-  mk_ts (ts_done s) (ts_data s) (ts_acodec s) (ts_vcodec s) v (ts_asc s) (ts_acache s) (ts_afirst s) (ts_opened s) (ts_abase s) (ts_vbase s).
-Definition ts_set_asc (s : ts_st) (v : bool) : ts_st :=
-  mk_ts (ts_done s) (ts_data s) (ts_acodec s) (ts_vcodec s) (ts_spspps s) v (ts_acache s) (ts_afirst s) (ts_opened s) (ts_abase s) (ts_vbase s).
-Definition ts_set_acache (s : ts_st) (n first : N) : ts_st :=
-  mk_ts (ts_done s) (ts_data s) (ts_acodec s) (ts_vcodec s) (ts_spspps s) (ts_asc s) n first (ts_opened s) (ts_abase s) (ts_vbase s).
+(* rtmp2MpegtsFilter + the remuxer it pops into *)
+Record ts_st := mk_ts {
+  ts_done : bool;                 (* filter.done *)
+  ts_data : list mmsg;            (* filter.data *)
+  ts_acodec : option N;           (* filter.audioCodecId (-1 = None) *)
+  ts_vcodec : option N;
+  ts_rmx : rmx_st
+}.
+Definition ts_init : ts_st := mk_ts false [] None None rmx_init.
 
-Definition spspps_cached (s : ts_st) : bool :=     (* videoSeqHeaderCached: len(spspps) != 0 *)
+Definition ts_set_spspps (s : rmx_st) (v : option bytes) : rmx_st :=
+  mk_rmx v (ts_asc s) (ts_acache s) (ts_afirst s) (ts_opened s) (ts_abase s) (ts_vbase s).
+Definition ts_set_asc (s : rmx_st) (v : bool) : rmx_st :=
+  mk_rmx (ts_spspps s) v (ts_acache s) (ts_afirst s) (ts_opened s) (ts_abase s) (ts_vbase s).
+Definition ts_set_acache (s : rmx_st) (n first : N) : rmx_st :=
+  mk_rmx (ts_spspps s) (ts_asc s) n first (ts_opened s) (ts_abase s) (ts_vbase s).
+
+Definition spspps_cached (s : rmx_st) : bool :=     (* videoSeqHeaderCached: len(spspps) != 0 *)
   match ts_spspps s with Some (_ :: _) => true | _ => false end.
 
 (* onFrame: timestamp filter, boundary decision, opened flag, event *)
-Definition ts_on_frame (s : ts_st) (video : bool) (dts ctsv : N) (key : bool) (rawlen : N) : ts_st * ts_ev :=
+Definition ts_on_frame (s : rmx_st) (video : bool) (dts ctsv : N) (key : bool) (rawlen : N) : rmx_st * ts_ev :=
   let base0 := if video then ts_vbase s else ts_abase s in
   let base := match base0 with Some b => b | None => dts end in
   let dts' := if dts <? base then dts else dts - base in
@@ -72,13 +79,13 @@ Definition ts_on_frame (s : ts_st) (video : bool) (dts ctsv : N) (key : bool) (r
   let boundary :=
     if video then key && (negb (ts_asc s) || negb (ts_opened s) || negb (ts_acache s =? 0))
     else negb (spspps_cached s) in
-  let s' := mk_ts (ts_done s) (ts_data s) (ts_acodec s) (ts_vcodec s) (ts_spspps s) (ts_asc s) (ts_acache s) (ts_afirst s)
+  let s' := mk_rmx (ts_spspps s) (ts_asc s) (ts_acache s) (ts_afirst s)
                   (ts_opened s || boundary)
                   (if video then ts_abase s else Some base) (if video then Some base else ts_vbase s) in
   (s', EvFrame video dts' pts' key boundary rawlen).
 
 (* FlushAudio *)
-Definition ts_flush_audio (s : ts_st) : ts_st * list ts_ev :=
+Definition ts_flush_audio (s : rmx_st) : rmx_st * list ts_ev :=
   if ts_acache s =? 0 then (s, [])
   else
     let n := ts_acache s in
@@ -160,7 +167,7 @@ Definition res_opt {A} (r : res A) : res (option A) :=
   match r with Ok a => Ok (Some a) | Err _ => Ok None | Panic s => Panic s end.
 
 (* feedVideo *)
-Definition ts_feed_video (fx : fixes) (cf : codec_fns) (s : ts_st) (m : mmsg) : res (ts_st * list ts_ev) :=
+Definition ts_feed_video (fx : fixes) (cf : codec_fns) (s : rmx_st) (m : mmsg) : res (rmx_st * list ts_ev) :=
   let p := mm_pay m in
   if Nat.leb (length p) 5 then Ok (s, [])
   else
@@ -202,7 +209,7 @@ Definition ts_feed_video (fx : fixes) (cf : codec_fns) (s : ts_st) (m : mmsg) : 
             end.
 
 (* feedAudio *)
-Definition ts_feed_audio (fx : fixes) (s : ts_st) (m : mmsg) : res (ts_st * list ts_ev) :=
+Definition ts_feed_audio (fx : fixes) (s : rmx_st) (m : mmsg) : res (rmx_st * list ts_ev) :=
   let p := mm_pay m in
   if Nat.leb (length p) 2 then Ok (s, [])
   else
@@ -228,14 +235,14 @@ Definition ts_feed_audio (fx : fixes) (s : ts_st) (m : mmsg) : res (ts_st * list
       Ok (s2, ev).
 
 (* onPop *)
-Definition ts_on_pop (fx : fixes) (cf : codec_fns) (s : ts_st) (m : mmsg) : res (ts_st * list ts_ev) :=
+Definition ts_on_pop (fx : fixes) (cf : codec_fns) (s : rmx_st) (m : mmsg) : res (rmx_st * list ts_ev) :=
   if mm_type m =? t_audio then
     let* c := audio_codec_id m in
     if negb ((c =? 10) || (c =? 13)) then Ok (s, []) else ts_feed_audio fx s m
   else if mm_type m =? t_video then ts_feed_video fx cf s m
   else Ok (s, []).
 
-Fixpoint ts_pop_all (fx : fixes) (cf : codec_fns) (s : ts_st) (l : list mmsg) (acc : list ts_ev) : res (ts_st * list ts_ev) :=
+Fixpoint ts_pop_all (fx : fixes) (cf : codec_fns) (s : rmx_st) (l : list mmsg) (acc : list ts_ev) : res (rmx_st * list ts_ev) :=
   match l with
   | [] => Ok (s, acc)
   | m :: t => let* (s', ev) := ts_on_pop fx cf s m in ts_pop_all fx cf s' t (acc ++ ev)
@@ -245,18 +252,19 @@ Definition ts_max_probe : nat := 16.   (* calcFragmentHeaderQueueSize *)
 
 (* Rtmp2MpegtsRemuxer.FeedRtmpMessage = filter.Push *)
 Definition ts_feed (fx : fixes) (cf : codec_fns) (s : ts_st) (m : mmsg) : res (ts_st * list ts_ev) :=
-  if ts_done s then ts_on_pop fx cf s m
+  if ts_done s then
+    let* (r, ev) := ts_on_pop fx cf (ts_rmx s) m in
+    Ok (mk_ts true (ts_data s) (ts_acodec s) (ts_vcodec s) r, ev)
   else
     let data := ts_data s ++ [m] in
     let* ac := (if mm_type m =? t_audio then let* b0 := idx s_ts_push (mm_pay m) 0 in Ok (Some (b0 / 16)) else Ok (ts_acodec s)) in
     let* vc := (if mm_type m =? t_video then let* v := video_codec_id fx m in Ok (Some v) else Ok (ts_vcodec s)) in
-    let s1 := mk_ts false data ac vc (ts_spspps s) (ts_asc s) (ts_acache s) (ts_afirst s) (ts_opened s) (ts_abase s) (ts_vbase s) in
     let both := match ac, vc with Some _, Some _ => true | _, _ => false end in
     if both || Nat.leb ts_max_probe (length data) then
-      let s2 := mk_ts true [] ac vc (ts_spspps s) (ts_asc s) (ts_acache s) (ts_afirst s) (ts_opened s) (ts_abase s) (ts_vbase s) in
-      let* (s3, ev) := ts_pop_all fx cf s2 data [] in
-      Ok (s3, EvPatPmt :: ev)
-    else Ok (s1, []).
+      let* (r, ev) := ts_pop_all fx cf (ts_rmx s) data [] in
+      Ok (mk_ts true [] ac vc r, EvPatPmt :: ev)
+    else Ok (mk_ts false data ac vc (ts_rmx s), []).
 
 (* Dispose = FlushAudio *)
-Definition ts_dispose (s : ts_st) : ts_st * list ts_ev := ts_flush_audio s.
+Definition ts_dispose (s : ts_st) : ts_st * list ts_ev :=
+  let (r, ev) := ts_flush_audio (ts_rmx s) in (mk_ts (ts_done s) (ts_data s) (ts_acodec s) (ts_vcodec s) r, ev).
